@@ -303,7 +303,7 @@ def post_dyn(ip, ctx, out):
     frame_obligations(ip, ctx, out, allow_exc=('AssertionError', 'ValueError', 'TypeError', 'IndexError', 'UserError', 'NotImplementedError'))
 
 
-# ---- TEMPO: Tempo keeps the caller's initial state object; the back end works on its own copy
+# ---- TEMPO: the input parser stores a converted copy of the initial state (arr/store[_tempo_physical_input_parse]); the back end works on a view of THAT
 def scen_backend_init(variant):
     from . import c01
 
@@ -328,8 +328,7 @@ def backend_registry():
 
 
 def post_backend_init(ip, ctx, out):
-    # (whether the back end copies the state or works on a view is its own business: Tempo holds the caller's
-    # array object anyway; what matters is that nothing is ever written through it)
+    # (whether the back end copies the state or works on a view of Tempo's own copy is its business; nothing is ever written through it)
     frame_obligations(ip, ctx, out)
 
 
@@ -372,6 +371,7 @@ STORE_CASES = {
     'SimpleProcessTensor.set_cap_tensor': ('process_tensor.SimpleProcessTensor.set_cap_tensor', 'process_tensor.SimpleProcessTensor',
                                            {'_initial_tensor': None, '_mpo_tensors': [], '_cap_tensors': []},
                                            lambda ip, v, A: ([1, A('tensor', 1)], {})),
+    '_tempo_physical_input_parse': ('tempo._tempo_physical_input_parse', None, {}, None),
     'SimpleProcessTensor.__init__': ('process_tensor.SimpleProcessTensor.__init__', 'process_tensor.SimpleProcessTensor', {},
                                      lambda ip, v, A: ([Int('hs_dim')], {'transform_in': A('transform_in', 2), 'transform_out': A('transform_out', 2)})),
     'Gate': ('mps_mpo.Gate.__init__', 'mps_mpo.Gate', {}, lambda ip, v, A: ([[0, 1], [A('tensors[0]', 3), A('tensors[1]', 3, first='tensors[0]_2')]], {})),
@@ -394,6 +394,14 @@ def scen_store(case, variant):
             a = caller_array(name, tuple(ds), variant[0], variant[1])
             arrays.append(a)
             return a
+        if case == '_tempo_physical_input_parse':
+            d = dims(ip, 'hs_dim')[0]
+            a = caller_array('initial_state', (d, d), variant[0], variant[1])
+            arrays.append(a)
+            system = mkobj(repo, 'system.System', _dimension=d)
+            bath = mkobj(repo, 'bath.Bath', _dimension=d)
+            return {'args': [False, system, a, bath], 'kwargs': {}, 'self': None, 'arrays': arrays, 'containers': [],
+                    'inputs': {'layout': vname(variant), 'site': case}}
         if case == 'ChainControl.add_single_site_control':
             d = dims(ip, 'hs_dim')[0]
             self_ = mkobj(repo, cls, _hs_dims=[d, d], _single_site_controls_pre=[], _single_site_controls_post=[])
